@@ -76,6 +76,25 @@ func (ctx *Ctx) GenVC(fc *FuncContract) (res *FuncResult) {
 		}
 		vc.inputs = append(vc.inputs, WatchTerm{p.Name(), t})
 	}
+	// A closure under contract: every captured variable is a distinct allocated cell of the
+	// enclosing function, reached through the free variable (a pointer to it).
+	var fvRids []Term
+	for _, fv := range fn.FreeVars {
+		t := vc.Fresh("fv_"+fv.Name(), SRef)
+		fr.freeVars[fv] = t
+		entry.assume(And(Gt(Rid(t), IntLit(0)), Lt(Rid(t), entry.alloc), Eq(Roff(t), IntLit(0))))
+		for _, o := range fvRids {
+			entry.assume(Neq(Rid(t), o))
+		}
+		fvRids = append(fvRids, Rid(t))
+		if pt, ok := U(fv.Type()).(*types.Pointer); ok {
+			vc.captured = append(vc.captured, capturedCell{t, pt.Elem()})
+			if v, err := vc.loadAt(entry, t, pt.Elem()); err == nil {
+				entry.assume(vc.rangeAssumption(v, pt.Elem(), entry.alloc))
+			}
+		}
+		vc.assume("captured variable " + fv.Name() + " of the closure is a cell of its own, written only by the closure while it runs (not by its callees)")
+	}
 	// pre-register the heap sorts of every type the function mentions
 	for _, b := range fn.Blocks {
 		for _, in := range b.Instrs {
